@@ -1,6 +1,7 @@
 """C03 — results, stored data and call counts independent of executor, storage and schedule."""
 from __future__ import annotations
 
+import collections
 import copy
 import os
 import warnings
@@ -65,10 +66,36 @@ def gen_case(tape, tier):
         if cfg2["entry"] == "map_async" and cfg2["executor"]["kind"] == "sequential":
             cfg2["executor"] = {"kind": "default-pool", "ex": {"mode": "process", "workers": 2, "start": "fifo", "pickle_at": "submit"}}
         case["second"] = cfg2
+    axes = sorted(a for a, n in w["indices"].items() if n > 0)
+    if axes and tape.coin(0.1, "restricted-run"):
+        # the same map restricted to part of an axis (fixed_indices): if the tree accepts the request, every call it
+        # makes must still be one of the full run's calls - a function must never see an incompletely filled input
+        a = tape.pick(axes, "fixed-axis")
+        case["restricted"] = {a: tape.choose(w["indices"][a], "fixed-index")}
     return case
 
 
 def simplify(case):
+    if case.get("restricted"):
+        c = copy.deepcopy(case)
+        del c["restricted"]
+        yield c
+        if case.get("second"):
+            c = copy.deepcopy(case)
+            del c["second"]
+            yield c
+        for w in C.simplify_workload(case["workload"]):
+            (a, i), = case["restricted"].items()
+            if a in w["indices"] and i < w["indices"][a]:
+                c = copy.deepcopy(case)
+                c["workload"] = w
+                c.pop("second", None)
+                if c["config"]["executor"]["kind"] in ("dict", "dict-default"):
+                    c["config"]["executor"] = {"kind": "single", "ex": next(iter(c["config"]["executor"]["per"].values()))}
+                if isinstance(c["config"]["storage"], dict):
+                    c["config"]["storage"] = next(iter(c["config"]["storage"].values()))
+                yield c
+        return
     if case.get("second"):
         c = copy.deepcopy(case)
         del c["second"]
@@ -136,6 +163,8 @@ def run_case(case, exec_seed=None, exec_tape=None):
         viol.append({"property": PID, "oracle": oracle, "kind": kind, "detail": detail})
 
     runs = [("first", cfg)] + ([("second", case["second"])] if case.get("second") else [])
+    if case.get("restricted"):
+        runs.append(("restricted", dict(cfg, fixed=case["restricted"], run_folder=True)))
     shared = {}
     digests = []
     for run_tag, cfg in runs:
@@ -159,6 +188,9 @@ def run_case(case, exec_seed=None, exec_tape=None):
                 executor, parallel = C.make_executor(sim, cfg["executor"])
                 kw = dict(run_folder=folder, storage=C.storage_arg(cfg["storage"]),
                           persist_memory=cfg["persist_memory"], show_progress=bool(cfg.get("show_progress")), **map_kwargs(w))
+                restricted = run_tag == "restricted"
+                if restricted:
+                    kw["fixed_indices"] = dict(cfg["fixed"])
 
                 def main():
                     if cfg["entry"] == "map":
@@ -183,7 +215,10 @@ def run_case(case, exec_seed=None, exec_tape=None):
                     raise
                 except Exception as e:  # noqa: BLE001
                     err = e
-                    V("result", "raised:" + type(e).__name__, repr(e)[:300])
+                    if restricted and isinstance(e, (ValueError, IndexError)) and not sim.calls:
+                        sim.probe("restricted_run_rejected")  # whether a request must be rejected is C06's question
+                    else:
+                        V("result", "raised:" + type(e).__name__, repr(e)[:300])
                 finally:
                     C.restore_default_pool(sim)
                 leaked = getattr(sim.kernel, "leaked", 0)
@@ -192,7 +227,16 @@ def run_case(case, exec_seed=None, exec_tape=None):
                 texc = [t for t in sim.kernel.threads if t.exc is not None]
                 if err is None and texc:
                     V("liveness", "task-thread-died:" + type(texc[0].exc).__name__, repr(texc[0].exc)[:300])
-                if res is not None:
+                if res is not None and restricted:
+                    sim.probe("restricted_run_accepted")
+                    got = collections.Counter(c.key() for c in sim.calls)
+                    for key, n in got.items():
+                        if n > ref.C0.get(key, 0):
+                            fn = key[0] if isinstance(key, tuple) else key
+                            V("calls", "restricted-run-made-a-call-the-full-run-never-makes" if key not in ref.C0
+                              else "restricted-run-duplicate-call", {"fixed": cfg["fixed"], "call": repr(key)[:300], "fn": repr(fn)[:40]})
+                            break
+                elif res is not None:
                     # 1. results (the returned mapping: same entries in the same order, same values)
                     if list(res.keys()) != ref.order:
                         V("result", "result-entries-differ", {"got": list(res.keys()), "ref": ref.order})
